@@ -248,7 +248,9 @@ pub fn run(tier: Tier) -> i32 {
                                 if missing {
                                     // the first unknown mandatory id met while walking decides
                                     match &d {
-                                        DecapOut::Err { kind, consumed, .. } if kind == "ErrorUnkownMandatoryHeader" => {
+                                        // any rejection will do (the statement does not name the error), as long as
+                                        // the packet is dropped as a whole and exactly its own length is consumed
+                                        DecapOut::Err { consumed, .. } => {
                                             if *consumed != n {
                                                 rep.violation(&format!("C13|unknown-mandatory|consumed|tail{}", tail.len()), rank, || (format!("{}: receiver {} rejects the packet but consumes {} instead of its length {}", desc, mname, consumed, n), wit()));
                                             }
@@ -347,7 +349,7 @@ fn builtin_managers(rep: &Report) {
                                 rep.violation(&format!("C13|builtin-manager|{}|not-delivered|{}", which, outs.last().unwrap().class()), p as u64, || (format!("chain {:?} pt {:#06x}: the crate's {} manager knows every mandatory id used, but the receiver answers {:?}", c.iter().map(|e| e.0).collect::<Vec<_>>(), pt, which, outs.iter().map(|o| o.brief()).collect::<Vec<_>>()), wit()));
                             }
                             if !must_deliver {
-                                let first_ok = matches!(&outs[0], DecapOut::Err { kind, consumed, .. } if kind == "ErrorUnkownMandatoryHeader" && *consumed == pkts[0].len());
+                                let first_ok = matches!(&outs[0], DecapOut::Err { consumed, .. } if *consumed == pkts[0].len());
                                 // a chain the sender's finality notion and the manager's disagree on may also be misparsed; only
                                 // chains containing an id the manager does not know at all must be dropped as unknown
                                 let unknown = mand.iter().any(|&i| which == "simple" || !(i == 0x0081 || i == 0x0082));
